@@ -1,7 +1,7 @@
 SPECIFICATION Spec
 CONSTANTS
   Anys = {1, 2, 3}
-  Types = {"Small", "Big", "STM"}
+  Types = {"Small", "Big", "STM", "NC"}
   Vals = {1, 2}
   Fuses = {0, 1}
   MCCastForms <- AllCastForms
@@ -9,4 +9,4 @@ CONSTANTS
 ACTION_CONSTRAINT EmitOp
 VIEW absvars
 INVARIANTS TypeOK IsCanon NoLeakNoDangling Independent
-PROPERTIES ObserversPure NoexceptNeverThrow ThrowChangesNothing OthersUntouched CopyCopies SwapSwaps
+PROPERTIES ObserversPure NoexceptNeverThrow ThrowChangesNothing OthersUntouched CopyCopies SwapSwaps ObserversAgree
